@@ -394,6 +394,58 @@ def nows(s):
     return "".join(s.split())
 
 
+def inline_helpers(f, mod, text):
+    """Calls of private helper functions of the generated module (free fns named `__..` whose body is one expression) are
+    replaced by that expression with the arguments substituted: moving a struct literal into a helper is not a change."""
+    from .canon import retok, untok, split_depth
+    helpers = {}
+    for k, v in f.kv:
+        m = re.fullmatch(r"%s::(__\w+)\|body" % re.escape(mod), k)
+        if not m:
+            continue
+        name = m.group(1)
+        body = retok(v)
+        if not (body.startswith("{ ") and body.endswith(" }")) or len(split_depth(body[2:-2], ";")) != 1:
+            continue
+        params, i = [], 0
+        while f.one("%s::%s#%d|param" % (mod, name, i)) is not None:
+            pm = re.match(r"pat=(\w+);ty=", f.one("%s::%s#%d|param" % (mod, name, i)))
+            if not pm:
+                params = None
+                break
+            params.append(pm.group(1))
+            i += 1
+        if params is not None:
+            helpers[name] = (params, body[2:-2])
+    if not helpers:
+        return text
+    t = retok(text)
+    for name, (params, expr) in helpers.items():
+        for _ in range(50):
+            m = re.search(r"(?<![\w.] )\b%s (?::: < [^()]*? > )?\( " % re.escape(name), t)
+            if not m:
+                break
+            toks, depth, j = t[m.end():].split(" "), 1, 0
+            while j < len(toks) and depth > 0:
+                if toks[j] in ("(", "[", "{"):
+                    depth += 1
+                elif toks[j] in (")", "]", "}"):
+                    depth -= 1
+                j += 1
+            inner = " ".join(toks[:j - 1])
+            args = [a.strip() for a in split_depth(inner, ",") if a.strip()]
+            if len(args) != len(params):
+                break
+            e = expr
+            # (shorthand fields `SubMsg { id , payload }` name a parameter twice: expand them first)
+            for pn in params:
+                e = re.sub(r"(?<=[{,] )%s(?= [,}])" % re.escape(pn), "%s : %s" % (pn, pn), e)
+            sub = dict(zip(params, args))
+            e = re.sub(r"(?<![\w.] )(?<!: : )\b(%s)\b(?! :(?!:))" % "|".join(re.escape(x) for x in params), lambda mm: sub[mm.group(1)], e)
+            t = t[:m.start()] + e + " " + " ".join(toks[j:])
+    return untok(t)
+
+
 def canon_reply(f):
     """probe facts of a contract expansion -> lines in the format of RunReply.show_reply_contract"""
     if f.status != "accepted":
@@ -413,13 +465,18 @@ def canon_reply(f):
         lines.append("reply_ids_not_consecutive=" + ",".join("%s:%d" % (c, i) for i, c in consts))
     # split the `match id` arms
     arms = {}
-    heads = [(m.start(), m.group(1)) for m in re.finditer(r"(\w+_REPLY_ID) => \{ match result \{", body)]
+    # (one branch per reply id: arms of `match id`, or a chain of `if id == ..`)
+    heads = [(m.start(), m.group(1) or m.group(2)) for m in
+             re.finditer(r"(?:(\w+_REPLY_ID) => \{|if id == (\w+_REPLY_ID) \{) match result \{", body)]
+    tail = max(body.rfind("_ => {"), body.rfind("else { let err_msg"))
     for i, (pos, rid) in enumerate(heads):
-        end = heads[i + 1][0] if i + 1 < len(heads) else body.rfind("_ => {")
+        end = heads[i + 1][0] if i + 1 < len(heads) else tail
         arms[rid] = body[pos:end]
     builders = {}
     for k, v in f.kv:
         m = re.fullmatch(r"::sv::impl#(\d+)::(\w+)\|body", k)
+        if m and "ReplyOn ::" in v:
+            v = inline_helpers(f, "::sv", v)
         if m and "ReplyOn ::" in v and "SubMsg {" in v:
             impl_head = f.one("::sv::impl#%s|impl" % m.group(1), "")
             recv = "submsg" if "self=sylvia :: cw_std :: SubMsg" in impl_head else ("wasm" if "WasmMsg" in impl_head else "cosmos")
@@ -447,7 +504,9 @@ def canon_reply(f):
             ro = re.search(r"reply_on : sylvia :: cw_std :: ReplyOn :: (\w+)", b)
             pm = payload_mode_of_builder(b)
             shape = "..self" if recv == "submsg" else "msg:self.into(),gas_limit:None"
-            ok_shape = (".. self" in b) if recv == "submsg" else ("msg : self . into ()" in b and "gas_limit : None" in b)
+            # (an existing sub-message keeps its message and gas limit: by `..self` or field by field)
+            ok_shape = (".. self" in b or ("msg : self . msg" in b and "gas_limit : self . gas_limit" in b)) if recv == "submsg" \
+                else ("msg : self . into ()" in b and "gas_limit : None" in b)
             descs.add("%s:%s%s" % (ro.group(1) if ro else "?", pm, "" if ok_shape else ":unexpected_shape(%s)" % recv))
         params = []
         i = 1
